@@ -7536,6 +7536,32 @@ func rulePointersToScalarsComparedByValue(c *core.Ctx) {
 				c.OK(rule, key, be.Pos(), "nil test")
 				return true
 			}
+			// `if a == nil || b == nil { return a == b }`: with one side nil the addresses answer the question
+			oneNil := false
+			ax, ay := types.ExprString(ast.Unparen(be.X)), types.ExprString(ast.Unparen(be.Y))
+			ast.Inspect(d.Body, func(m ast.Node) bool {
+				ifs, ok := m.(*ast.IfStmt)
+				if !ok || !(ifs.Body.Pos() <= be.Pos() && be.End() <= ifs.Body.End()) {
+					return true
+				}
+				ast.Inspect(ifs.Cond, func(q ast.Node) bool {
+					if t, ok := q.(*ast.BinaryExpr); ok && t.Op == token.EQL {
+						for _, pair := range [][2]ast.Expr{{t.X, t.Y}, {t.Y, t.X}} {
+							if isNilIdent(pair[1]) {
+								if tx := types.ExprString(ast.Unparen(pair[0])); tx == ax || tx == ay {
+									oneNil = true
+								}
+							}
+						}
+					}
+					return true
+				})
+				return true
+			})
+			if oneNil {
+				c.OK(rule, key, be.Pos(), "one operand is nil on this path: both absent is the only way to be equal")
+				return true
+			}
 			c.Bad(rule, key, be.Pos(), fmt.Sprintf("`%s %s %s` compares two pointers, not the values they point to: equal values stored in different models compare as different", types.ExprString(be.X), be.Op, types.ExprString(be.Y)))
 			return true
 		})
@@ -7755,13 +7781,39 @@ func ruleSinksSharedAndVerdictsUsed(c *core.Ctx) {
 // header written for an old version carries an empty schema.
 func ruleSchemaDefinedBeforeItIsCopied(c *core.Ctx) {
 	const rule = "H2"
-	c.Rule(rule, "cpp/protocols: the emission that defines `<Writer>::schema_` comes before the emission that opens the initialiser of `<Writer>::previous_schemas_`", 1)
-	n := 0
+	c.Rule(rule, "cpp/protocols: the emission that defines `<Writer>::schema_` comes before the emission that opens the initialiser of `<Writer>::previous_schemas_` (helpers that print one of them count where they are called)", 1)
+	schemaRe := regexp.MustCompile(`std::string\s+%s::schema_\s*=`)
+	prevRe := regexp.MustCompile(`%s::previous_schemas_\s*=\s*\{`)
+	var decls []*ast.FuncDecl
 	for _, d := range c.AllDecls() {
 		p := c.DeclPkg(d)
-		if p == nil || d.Body == nil || !strings.HasSuffix(p.PkgPath, "/internal/cpp/protocols") || c.IsTestFile(d.Pos()) {
-			continue
+		if p != nil && d.Body != nil && strings.HasSuffix(p.PkgPath, "/internal/cpp/protocols") && !c.IsTestFile(d.Pos()) {
+			decls = append(decls, d)
 		}
+	}
+	// what a function prints itself
+	direct := map[*ast.FuncDecl][2]bool{}
+	for _, d := range decls {
+		info := c.DeclPkg(d).TypesInfo
+		var has [2]bool
+		ast.Inspect(d.Body, func(nn ast.Node) bool {
+			if ce, ok := nn.(*ast.CallExpr); ok {
+				if t, ok := emissionTemplate(info, ce); ok && t != "" {
+					if schemaRe.MatchString(t) {
+						has[0] = true
+					}
+					if prevRe.MatchString(t) {
+						has[1] = true
+					}
+				}
+			}
+			return true
+		})
+		direct[d] = has
+	}
+	n := 0
+	for _, d := range decls {
+		p := c.DeclPkg(d)
 		info := p.TypesInfo
 		var schemaPos, prevPos []token.Pos
 		ast.Inspect(d.Body, func(nn ast.Node) bool {
@@ -7769,18 +7821,48 @@ func ruleSchemaDefinedBeforeItIsCopied(c *core.Ctx) {
 			if !ok {
 				return true
 			}
-			t, ok := emissionTemplate(info, ce)
-			if !ok || t == "" {
+			if t, ok := emissionTemplate(info, ce); ok {
+				if schemaRe.MatchString(t) {
+					schemaPos = append(schemaPos, ce.Pos())
+				}
+				if prevRe.MatchString(t) {
+					prevPos = append(prevPos, ce.Pos())
+				}
 				return true
 			}
-			switch {
-			case regexp.MustCompile(`std::string\s+%s::schema_\s*=`).MatchString(t):
-				schemaPos = append(schemaPos, ce.Pos())
-			case regexp.MustCompile(`%s::previous_schemas_\s*=\s*\{`).MatchString(t):
-				prevPos = append(prevPos, ce.Pos())
+			if f := core.Callee(info, ce); f != nil && f.Pkg() == p.Types {
+				if fd := c.Decl(f); fd != nil && fd != d && direct[fd][0] != direct[fd][1] {
+					// a helper that prints exactly one of the two (one that prints both is judged in itself)
+					if direct[fd][0] {
+						schemaPos = append(schemaPos, ce.Pos())
+					}
+					if direct[fd][1] {
+						prevPos = append(prevPos, ce.Pos())
+					}
+				}
 			}
 			return true
 		})
+		if len(prevPos) == 0 || (len(schemaPos) == 0 && direct[d][1] && !direct[d][0]) {
+			// a helper that prints only the vector: judged where it is called
+			called := false
+			for _, o := range decls {
+				if o == d {
+					continue
+				}
+				ast.Inspect(o.Body, func(nn ast.Node) bool {
+					if ce, ok := nn.(*ast.CallExpr); ok {
+						if f := core.Callee(c.DeclPkg(o).TypesInfo, ce); f != nil && c.Decl(f) == d {
+							called = true
+						}
+					}
+					return true
+				})
+			}
+			if len(prevPos) == 0 || called {
+				continue
+			}
+		}
 		for _, pp := range prevPos {
 			n++
 			before := false
@@ -7789,7 +7871,7 @@ func ruleSchemaDefinedBeforeItIsCopied(c *core.Ctx) {
 					before = true
 				}
 			}
-			c.Check(before, rule, fmt.Sprintf("%s/previous_schemas_#%d", c.FuncName(d), n), pp, "`schema_` is defined by an earlier emission of the same function",
+			c.Check(before, rule, fmt.Sprintf("%s/previous_schemas_#%d", c.FuncName(d), n), pp, "`schema_` is defined by an earlier emission",
 				"`previous_schemas_` is emitted before (or without) the definition of `schema_` it copies from: static initialisation runs in definition order, so the entries for unchanged versions are copies of an unconstructed string")
 		}
 	}
@@ -7912,75 +7994,99 @@ func ruleSchemaListsAndDistinguishes(c *core.Ctx) {
 		c.Undecided(rule6, "anchor/GeneralizedType.MarshalJSON", 0, "not found")
 		return
 	}
-	keysOf := func(cc *ast.CaseClause) []string {
+	// every JSON key named in the function (tag of a one-field wrapper struct around a nested view, key of a map literal,
+	// string argument of a wrapping helper), with the dimensionality it is written for: the nearest enclosing type-switch
+	// clause or `if d, ok := x.(*Kind); ok` body
+	parents := map[ast.Node]ast.Node{}
+	var stack []ast.Node
+	ast.Inspect(mj.Body, func(x ast.Node) bool {
+		if x == nil {
+			stack = stack[:len(stack)-1]
+			return true
+		}
+		if len(stack) > 0 {
+			parents[x] = stack[len(stack)-1]
+		}
+		stack = append(stack, x)
+		return true
+	})
+	kindOf := func(x ast.Node) string {
+		for cur := x; cur != nil; cur = parents[cur] {
+			switch pp := parents[cur].(type) {
+			case *ast.CaseClause:
+				if len(pp.List) == 1 {
+					return types.ExprString(pp.List[0])
+				}
+			case *ast.IfStmt:
+				if cur == ast.Node(pp.Body) {
+					if as, ok := pp.Init.(*ast.AssignStmt); ok && len(as.Rhs) == 1 {
+						if ta, ok := ast.Unparen(as.Rhs[0]).(*ast.TypeAssertExpr); ok && ta.Type != nil {
+							return types.ExprString(ta.Type)
+						}
+					}
+				}
+			}
+		}
+		return ""
+	}
+	type named struct {
+		kind, key string
+		pos       token.Pos
+	}
+	var found []named
+	ast.Inspect(mj.Body, func(m ast.Node) bool {
 		var keys []string
-		for _, s := range cc.Body {
-			ast.Inspect(s, func(m ast.Node) bool {
-				switch x := m.(type) {
-				case *ast.CompositeLit:
-					t := info.TypeOf(x)
-					if t == nil {
-						return true
+		switch x := m.(type) {
+		case *ast.CompositeLit:
+			t := info.TypeOf(x)
+			if t == nil {
+				return true
+			}
+			if st, ok := t.Underlying().(*types.Struct); ok && st.NumFields() == 1 {
+				if _, inner := st.Field(0).Type().Underlying().(*types.Struct); inner {
+					if tag := reflect.StructTag(st.Tag(0)).Get("json"); tag != "" {
+						keys = append(keys, strings.Split(tag, ",")[0])
 					}
-					if st, ok := t.Underlying().(*types.Struct); ok && st.NumFields() == 1 {
-						if _, inner := st.Field(0).Type().Underlying().(*types.Struct); inner {
-							if tag := reflect.StructTag(st.Tag(0)).Get("json"); tag != "" {
-								keys = append(keys, strings.Split(tag, ",")[0])
-							}
-						}
-					}
-					if _, ok := t.Underlying().(*types.Map); ok {
-						for _, e := range x.Elts {
-							if kv, ok := e.(*ast.KeyValueExpr); ok {
-								if tv, ok := info.Types[kv.Key]; ok && tv.Value != nil && tv.Value.Kind() == constant.String {
-									keys = append(keys, constant.StringVal(tv.Value))
-								}
-							}
-						}
-					}
-				case *ast.CallExpr:
-					if f := core.Callee(info, x); f != nil && f.Pkg() == p.Types && len(x.Args) >= 2 {
-						if tv, ok := info.Types[x.Args[0]]; ok && tv.Value != nil && tv.Value.Kind() == constant.String {
+				}
+			}
+			if _, ok := t.Underlying().(*types.Map); ok {
+				for _, e := range x.Elts {
+					if kv, ok := e.(*ast.KeyValueExpr); ok {
+						if tv, ok := info.Types[kv.Key]; ok && tv.Value != nil && tv.Value.Kind() == constant.String {
 							keys = append(keys, constant.StringVal(tv.Value))
 						}
 					}
 				}
-				return true
-			})
+			}
+		case *ast.CallExpr:
+			if f := core.Callee(info, x); f != nil && f.Pkg() == p.Types && len(x.Args) >= 2 {
+				if tv, ok := info.Types[x.Args[0]]; ok && tv.Value != nil && tv.Value.Kind() == constant.String {
+					keys = append(keys, constant.StringVal(tv.Value))
+				}
+			}
 		}
-		return keys
-	}
+		if len(keys) > 0 {
+			if k := kindOf(m); k != "" && k != "nil" {
+				found = append(found, named{k, keys[0], m.Pos()})
+			}
+		}
+		return true
+	})
 	seen := map[string]string{}
 	n := 0
-	ast.Inspect(mj.Body, func(nn ast.Node) bool {
-		ts, ok := nn.(*ast.TypeSwitchStmt)
-		if !ok {
-			return true
+	for _, f := range found {
+		if prev, ok := seen[f.kind+"\x00"]; ok && prev == f.key {
+			continue
 		}
-		for _, cl := range ts.Body.List {
-			cc := cl.(*ast.CaseClause)
-			if len(cc.List) != 1 {
-				continue
-			}
-			kind := types.ExprString(cc.List[0])
-			if kind == "nil" {
-				continue
-			}
-			keys := keysOf(cc)
-			if len(keys) == 0 {
-				continue
-			}
-			n++
-			k := keys[0]
-			if other, dup := seen[k]; dup && other != kind {
-				c.Bad(rule6, "GeneralizedType.MarshalJSON/"+kind, cc.Pos(), fmt.Sprintf("%s is written under the JSON key %q, which %s uses too: the two dimensionalities have the same schema text, a reader for one accepts data of the other", kind, k, other))
-			} else {
-				seen[k] = kind
-				c.OK(rule6, "GeneralizedType.MarshalJSON/"+kind, cc.Pos(), fmt.Sprintf("key %q", k))
-			}
+		n++
+		seen[f.kind+"\x00"] = f.key
+		if other, dup := seen[f.key]; dup && other != f.kind {
+			c.Bad(rule6, "GeneralizedType.MarshalJSON/"+f.kind, f.pos, fmt.Sprintf("%s is written under the JSON key %q, which %s uses too: the two dimensionalities have the same schema text, a reader for one accepts data of the other", f.kind, f.key, other))
+		} else {
+			seen[f.key] = f.kind
+			c.OK(rule6, "GeneralizedType.MarshalJSON/"+f.kind, f.pos, fmt.Sprintf("key %q", f.key))
 		}
-		return false
-	})
+	}
 	if n == 0 {
 		c.Undecided(rule6, "GeneralizedType.MarshalJSON/keys", mj.Pos(), "no JSON keys found in the clauses of the type switch")
 	}
@@ -8087,10 +8193,60 @@ func ruleWatchSetUnchangedOnFailure(c *core.Ctx) {
 			})
 			return hit
 		}
+		// local closures that change the watch set but do not hold the result themselves (`watchAll := func(dirs []string)`)
+		// are judged where they are called with the result
+		definesHolder := func(fl *ast.FuncLit) bool {
+			hit := false
+			ast.Inspect(fl.Body, func(m ast.Node) bool {
+				if as, ok := m.(*ast.AssignStmt); ok {
+					for _, l := range as.Lhs {
+						if holders[identObj(info, l)] {
+							hit = true
+						}
+					}
+				}
+				return true
+			})
+			return hit
+		}
+		litChanges := func(fl *ast.FuncLit) bool {
+			hit := false
+			ast.Inspect(fl.Body, func(m ast.Node) bool {
+				if ce, ok := m.(*ast.CallExpr); ok && len(ce.Args) == 1 {
+					if g := core.Callee(info, ce); g != nil {
+						fn := core.FullName(g)
+						if strings.HasSuffix(fn, "fsnotify.Watcher).Add") || strings.HasSuffix(fn, "fsnotify.Watcher).Remove") {
+							if tv, ok := info.Types[ce.Args[0]]; !ok || tv.Value == nil {
+								hit = true
+							}
+						}
+					}
+				}
+				return true
+			})
+			return hit
+		}
+		helperLits := map[types.Object]*ast.FuncLit{}
+		ast.Inspect(d.Body, func(m ast.Node) bool {
+			if as, ok := m.(*ast.AssignStmt); ok && len(as.Lhs) == 1 && len(as.Rhs) == 1 {
+				if fl, ok := as.Rhs[0].(*ast.FuncLit); ok && !definesHolder(fl) && litChanges(fl) {
+					if o := identObj(info, as.Lhs[0]); o != nil {
+						helperLits[o] = fl
+					}
+				}
+			}
+			return true
+		})
 		var walk func(nn ast.Node, guarded bool)
 		walk = func(nn ast.Node, guarded bool) {
 			ast.Inspect(nn, func(m ast.Node) bool {
 				switch x := m.(type) {
+				case *ast.FuncLit:
+					for _, fl := range helperLits {
+						if fl == x {
+							return false // judged at its calls
+						}
+					}
 				case *ast.BlockStmt:
 					g := guarded
 					for _, st := range x.List {
@@ -8113,6 +8269,20 @@ func ruleWatchSetUnchangedOnFailure(c *core.Ctx) {
 					walk(x.Body, guarded || holders[identObj(info, x.X)])
 					return false
 				case *ast.CallExpr:
+					if helperLits[identObj(info, x.Fun)] != nil {
+						passes := false
+						for _, a := range x.Args {
+							if holders[identObj(info, a)] {
+								passes = true
+							}
+						}
+						if passes {
+							n++
+							c.Check(guarded, rule, fmt.Sprintf("%s/%s#%d", c.FuncName(d), types.ExprString(x.Fun), n), x.Pos(), "only where the result of the generation is non-nil",
+								"the watch set is changed (through "+types.ExprString(x.Fun)+") also when the generation failed and returned no directories")
+						}
+						return true
+					}
 					f := core.Callee(info, x)
 					if f != nil && f.Pkg() == p.Types && changesWatches(f) {
 						passesHolder := false
